@@ -661,7 +661,26 @@ func GenCase(prop string, seed uint64, thorough bool) *Case {
 	case "crash":
 		g.crashPlan(c)
 	case "fault":
-		g.faultPlan(c, prop)
+		if prop == "C08" && r.p(0.15) {
+			// bit rot at rest instead of operation failures
+			ops := c.Clients[0]
+			at := len(ops) / 2
+			if at < 1 {
+				at = len(ops)
+			}
+			rot := Op{K: "rot", Slot: r.rng(1, 3), Ms: int(r.u64() % 1000000)}
+			ops = append(ops[:at:at], append([]Op{rot}, ops[at:]...)...)
+			for i := at + 1; i < len(ops); i++ {
+				if ops[i].K == "tx" || ops[i].K == "compact" {
+					ops[i] = Op{K: "get", Key: g.anyKey()}
+				}
+			}
+			c.Clients[0] = ops
+			c.Faults = nil
+			c.Rot = true
+		} else {
+			g.faultPlan(c, prop)
+		}
 	}
 	return c
 }
